@@ -26,6 +26,10 @@ OvFinish == /\ ~fin /\ (AllDone \/ ~ENABLED Next)
             /\ PrintT("BEHAVIOUR " \o ToJson([script |-> hist, outcomes |-> outs, overdue |-> ovs, alldone |-> AllDone,
                                                bad |-> mon.bad]))
             /\ fin' = TRUE /\ UNCHANGED <<vars, hist, last, outs, xph, ovs>>
+(* a subset of the behaviours for the rare regime "the export made for a ForceFlush outlives the caller's ctx":  *)
+(* caller contexts expire only while the caller's own export is running                                          *)
+FocusStep == OvSimStep /\ (\A c \in expired' \ expired : c \in Flushers /\ hx[c] = "exporting")
 OvSimInit == SimInit /\ xph = "out" /\ ovs = <<>>
 OvSimSpec == OvSimInit /\ [][(~fin /\ (OvSimStep \/ XDeadlineSim)) \/ OvFinish]_osvars
+OvSimSpecFocus == OvSimInit /\ [][(~fin /\ (FocusStep \/ XDeadlineSim)) \/ OvFinish]_osvars
 =============================================================================
